@@ -78,6 +78,29 @@ class Check(PropertyCheck):
             inner = None
             if w >= 5 and h >= 1 and self.rng.chance(1, 2):
                 inner = [" ab" + ("c" * self.rng.below(w - 4))]
+                if self.rng.chance(1, 2):
+                    # words on any interior rows, centred or flush against the left or the right wall (whatever the wall is
+                    # made of): letters only, among them the ones that mean something elsewhere (o O v V x X)
+                    inner = []
+                    for _ in range(h):
+                        if self.rng.chance(1, 2):
+                            inner.append("")
+                            continue
+                        word = self.rng.choice(["Hello", "Video", "Rev", "ab", "Overview", "Halle", "Help", "Total"])[:w]
+                        al = self.rng.below(3)
+                        pad = 0 if al == 0 else (w - len(word)) if al == 1 else (w - len(word)) // 2
+                        inner.append(" " * pad + word)
+                    if not any(r.strip() for r in inner):
+                        inner[0] = "Video"[:w]
+            if w >= 5 and any(v in ":!" for v in ver_rows) and self.rng.chance(2, 3):
+                # a word flush against a dashed stretch of a side wall
+                rows_d = [i for i, v in enumerate(ver_rows) if v in ":!"]
+                inner = list(inner or [])
+                while len(inner) < h:
+                    inner.append("")
+                for i in rows_d[: self.rng.range(1, 2)]:
+                    word = self.rng.choice(["Hello", "Video", "Rev", "Overview", "Help", "Total"])[:w]
+                    inner[i] = word if self.rng.chance(1, 2) else " " * (w - len(word)) + word
             k, n = self.rng.below(12), self.rng.below(6)
             # the recorded finding, exactly: rounded boxes without interior columns (any corner style), and rounded boxes
             # without interior rows whose left corners are `,` over `'`; every other box has to be one rect
